@@ -28,9 +28,10 @@ def run(prop: str, tier: str) -> int:
         rep = Report(prop, tier)
         explanation = mod.check(idx, rep, tier)
         if tier == "thorough":
-            from . import selftest
+            from . import mutprobe, selftest
 
             selftest.run_for(prop, mod, rep)
+            rep.run(mutprobe.probe, prop, mod, idx, rep)
         return rep.finish(explanation, idx)
     except AnalysisError as e:
         print(f"ANALYSIS-ERROR property={prop}: {e}")
